@@ -38,7 +38,7 @@ def _run_chunk(harness, header, execs, wd, tag, timeout, env, extra_args):
             f.write("\n".join(header) + "\n")
             for ex in todo:
                 f.write("\n".join(ex) + "\n")
-        rc, out, to = vlib.run([harness] + list(extra_args) + [sp, tp], timeout=timeout, env=env)
+        rc, out, to = vlib.run([harness] + list(extra_args) + [sp, tp], timeout=timeout, env=heap_checked(harness, env))
         evs = [ln for ln in open(tp, errors="replace").read().splitlines() if ln.strip()] if os.path.exists(tp) else []
         # every line must be one JSON object.  A harness that was interrupted in the middle of an event (an exception out of
         # an observation, a crash) leaves a malformed line: after a crash the cut-off LAST line is dropped, any other malformed
@@ -75,7 +75,7 @@ def _run_chunk(harness, header, execs, wd, tag, timeout, env, extra_args):
             # died inside execution len(groups)-1
             k = max(len(groups) - 1, 0)
             if not groups:
-                groups = [[]]
+                groups = [['{"op":"reset","synthetic":1}']]     # died before its first event: keep the execution delimited
             last = groups[k]
             if not (last and ('"op":"crash"' in last[-1] or '"op":"hang"' in last[-1])):
                 last.append(json.dumps({"op": "hang" if to else "crash", "sig": -rc if rc < 0 else rc, "line": -1,
@@ -89,6 +89,21 @@ def _run_chunk(harness, header, execs, wd, tag, timeout, env, extra_args):
                 except OSError:
                     pass
     return results
+
+
+MALLOC_DEBUG = "/lib/x86_64-linux-gnu/libc_malloc_debug.so.0"
+
+
+def heap_checked(harness, env):
+    """glibc's malloc checking (a guard byte behind every block, verified at free / realloc): a write one byte past a heap block
+    or a free of a foreign pointer aborts the harness - a crash event, judged like any other.  Costs a few percent; not used
+    for sanitizer builds (they bring their own allocator)."""
+    e = dict(env or {})
+    if os.environ.get("VERIF_NO_HEAPCHECK") or "ASAN_OPTIONS" in e or "asan" in os.path.basename(harness) or not os.path.exists(MALLOC_DEBUG):
+        return e or None
+    e.setdefault("LD_PRELOAD", MALLOC_DEBUG)
+    e.setdefault("GLIBC_TUNABLES", "glibc.malloc.check=3:glibc.malloc.perturb=165")      # freed and fresh blocks are overwritten: stale reads show
+    return e
 
 
 def execute(chk, harness, header, execs, nproc=None, timeout=900, env=None, extra_args=(), tag="t", per_process=False):
